@@ -202,7 +202,9 @@ var c13Corruptions = []string{"leaf", "eval_own_c0", "eval_own_c1", "eval_other_
 	"eval_own_p32", "eval_own_m32", "final_coeff0_p32", "final_coeff0_m32",
 	// the running value itself shifted by such a difference (the claimed evaluations stay the
 	// committed ones, so every Merkle path is still valid)
-	"running_value_p32", "running_value_m32"}
+	"running_value_p32", "running_value_m32",
+	// two trees of one round wrong in a cancelling way (a check on sums of roots / caps cannot see it)
+	"caps_cancelling_pair", "caps_swapped"}
 
 func init() {
 	register("C13", func() *fw.Prop {
@@ -305,6 +307,13 @@ func init() {
 					inst.NumOracles = no
 					for b := 0; b < 2; b++ {
 						bt := ref.Batch{Point: randE(r)}
+						// structured opening points: in the base field, or with a zero first coordinate
+						switch c.Int("i") % 5 {
+						case 1:
+							bt.Point = ref.E{randGL(r), 0}
+						case 2:
+							bt.Point = ref.E{0, 1 + randGL(r)%(P-1)}
+						}
 						for oi := range sizes {
 							for k := 0; k < sizes[oi]; k++ {
 								if b == 0 || r.Intn(3) == 0 {
@@ -381,6 +390,16 @@ func init() {
 					}
 					beta := c15RandE(r)
 					for within := uint64(0); within < 16; within++ {
+						// every third case: beta shares its FIRST coordinate with a point of the coset
+						// and has a non-zero second coordinate (not a coset point, not degenerate)
+						if c.Int("i")%3 == 1 {
+							g16 := ref.PrimitiveRoot(4)
+							pt := ref.Mul(x, ref.Exp(g16, 16-ref.ReverseBits(within, 4)))
+							for k := r.Intn(16); k > 0; k-- {
+								pt = ref.Mul(pt, g16)
+							}
+							beta = ref.E{pt, 1 + randGL(r)%(P-1)}
+						}
 						// beta equal to one of the sixteen coset points is the documented degenerate case
 						// (the reference returns the stored evaluation, the circuit asserts a non-zero
 						// denominator): not judged, only counted
@@ -619,6 +638,10 @@ func init() {
 						in.finalPoly = append([]ref.E(nil), base.finalPoly...)
 						var one fr.Element
 						one.SetOne()
+						if r.Intn(3) == 0 {
+							d := []*big.Int{bigP, new(big.Int).Lsh(bigP, 100), new(big.Int).Lsh(bigP, 64), pow2(64), pow2(128), pow2(192), pow2(56)}[r.Intn(7)]
+							one.SetBigInt(d)
+						}
 						if r.Intn(2) == 0 {
 							one.Neg(&one) // either direction: a one-sided comparison must not hide it
 						}
@@ -703,6 +726,23 @@ func init() {
 							cp[sel].Add(&cp[sel], &one)
 							in.caps = append([][]fr.Element(nil), in.caps...)
 							in.caps[oi] = cp
+						case "caps_cancelling_pair", "caps_swapped":
+							if len(in.caps) < 2 {
+								continue
+							}
+							a := r.Intn(len(in.caps))
+							b := (a + 1 + r.Intn(len(in.caps)-1)) % len(in.caps)
+							sel := in.raw % (1 << uint(lde)) >> uint(lde-4)
+							ca := append([]fr.Element(nil), in.caps[a]...)
+							cb := append([]fr.Element(nil), in.caps[b]...)
+							if base13 == "caps_swapped" {
+								ca[sel], cb[sel] = cb[sel], ca[sel]
+							} else {
+								ca[sel].Add(&ca[sel], &one)
+								cb[sel].Sub(&cb[sel], &one)
+							}
+							in.caps = append([][]fr.Element(nil), in.caps...)
+							in.caps[a], in.caps[b] = ca, cb
 						case "commit_cap":
 							st := r.Intn(len(in.commitCaps))
 							cp := append([]fr.Element(nil), in.commitCaps[st]...)
